@@ -191,6 +191,33 @@ func buildHistory(c *core.Ctx, prop string, idx int, kind string) *histCase {
 		hc.other("flush")
 		hc.reopen()
 		observe(true, 1, 0)
+	case "huge":
+		// single statements that change thousands of pages, nothing flushed in
+		// between, and then the session ends: everything the cache holds has
+		// to reach the file through the one flush that closing runs (no timer
+		// tick comes after it), and the next session reads it all back
+		h.MaxTables = 1
+		hc.addStmt(h.Next(), st) // create
+		t := h.DB.Tables[0]
+		rows := []int{9000, 20000, 17000, 30000, 12500, 36000}[idx%6]
+		hc.addStmt(h.Burst(t, rows), st)
+		hc.reopen()
+		observe(true, 1, 0)
+		// a DELETE over most of the table: every leaf it touches is dirty
+		var maxK int64
+		for _, row := range t.Rows {
+			if row.Vals[0].I > maxK {
+				maxK = row.Vals[0].I
+			}
+		}
+		del := &proto.Stmt{Kind: "delete", Table: t.Name, Where: model.Cmp("<", model.ColOp("k"), model.LitOp(proto.Int(maxK-int64(rows/10))))}
+		if f, _, _, err := h.DB.Apply(del); f == "" && err == nil {
+			hc.addStmt(del, st)
+			hc.reopen()
+			observe(true, 1, 0)
+		}
+		hc.addStmt(h.Burst(t, 50), st)
+		observe(true, 1, 0)
 	case "smallcache":
 		// a page cache (14-28 pages) smaller than the catalog (10-14 tables):
 		// a statement's catalog scan pushes out pages the statement has
@@ -292,6 +319,13 @@ func historyCheck(c *core.Ctx, prop string) []core.Floor {
 	}
 	for i := 0; i < nCat; i++ {
 		cases = append(cases, buildHistory(c, prop, 2000000+i, "catalog"))
+	}
+	nHuge := 2
+	if !core.Quick(c) {
+		nHuge = 6
+	}
+	for i := 0; i < nHuge; i++ {
+		cases = append(cases, buildHistory(c, prop, 5000000+i, "huge"))
 	}
 	if prop == "C11" {
 		for i := 0; i < nSmall/16; i++ {
